@@ -52,7 +52,9 @@ def strategy():
             lambda p: {'events': p % 7 + 1, 'on': p // 7 % 64 or 1, 'reactive': p // 448 % 3 == 2,
                        'renamed': p // 1344 == 1}),
                               min_size=1, max_size=4),
-        'ops': worldops.chunked(op, 30)})
+        'ops': worldops.chunked(op, 30),
+        # scale: 0, or the number of short-lived listeners a "sub" operation lets come and go on the transform
+        'amp': worldops.size_amp(none=26)})
 
 
 def viol(clause, **d):
@@ -153,7 +155,8 @@ def run_case(case):
         t, dim = transforms[ti]
         del log[:]
         if prop in ('sub', 'unsub'):
-            li = p % len(listeners)
+            alive = [i for i, l in enumerate(listeners) if l is not None]
+            li = alive[p % len(alive)]
             current['t'] = None
             try:
                 (t.add_handler if prop == 'sub' else t.remove_handler)(listeners[li])
@@ -164,6 +167,26 @@ def run_case(case):
             if log:
                 viol('callbacks_during_subscription', log=repr(log))
             facts['listener_%sscribed_mid_history' % prop] += 1
+            if case.get('amp') and prop == 'sub':
+                # listener churn: short-lived listeners subscribe to this transform and go out of scope again
+                # (nobody removes them), a sliding window of eight stays alive and keeps being notified
+                window = []
+                for k in range(case['amp']):
+                    nli = len(listeners)
+                    lst, evs = make_listener(nli, 1 + (k + p) % 7, False, k % 3 == 0)
+                    listeners.append(lst)
+                    listener_events.append(evs)
+                    t.add_handler(lst)
+                    for e in evs:
+                        subs[(ti, e)].add(nli)
+                    window.append(nli)
+                    lst = None
+                    if len(window) > 8:
+                        gone = window.pop(0)
+                        for e in listener_events[gone]:
+                            subs[(ti, e)].discard(gone)
+                        listeners[gone] = None          # the last reference: the listener is gone
+                facts['listener_churn'] += 1
             continue
         current['t'], current['prop'], current['nested'], current['dim'] = t, prop, None, dim
         if prop == 'rotation' and dim == 2:
